@@ -134,3 +134,6 @@ Qed.
 
 Lemma firstn_app_exact {A} : forall (l r : list A), firstn (length l) (l ++ r) = l.
 Proof. intros. rewrite firstn_app, Nat.sub_diag, firstn_all. cbn. apply app_nil_r. Qed.
+
+Lemma journal_eta : forall E (j : journal E), mkJ (j_entries j) (j_dirties j) = j.
+Proof. now destruct j. Qed.
